@@ -103,6 +103,9 @@ type Fault struct {
 // CloseFault makes Close of the instance produced by (Ctor, Nth invocation, output Out) fail.
 type CloseFault struct {
 	Ctor, Nth, Out int
+	// Panic: the Close method panics instead of returning an error (a bug in user code that
+	// a recovery middleware above the scope may well swallow).
+	Panic bool
 }
 
 // SentinelErr is the base of every injected constructor error.
@@ -234,6 +237,7 @@ type Recorder struct {
 	ctorCount map[int]int
 	faults    map[int][]Fault
 	closeF    map[CloseFault]bool
+	closeP    map[CloseFault]bool
 	ops       sync.Map // goid -> OpInfo
 	KeepVals  bool
 	hook      atomic.Pointer[func(HookPoint)]
@@ -248,7 +252,7 @@ var sink int64
 
 // NewRecorder creates a recorder and makes it current.
 func NewRecorder() *Recorder {
-	r := &Recorder{ctorCount: map[int]int{}, faults: map[int][]Fault{}, closeF: map[CloseFault]bool{}}
+	r := &Recorder{ctorCount: map[int]int{}, faults: map[int][]Fault{}, closeF: map[CloseFault]bool{}, closeP: map[CloseFault]bool{}}
 	cur.Store(r)
 	return r
 }
@@ -271,6 +275,11 @@ func (r *Recorder) SetFaults(fs []Fault, cfs []CloseFault) {
 		r.faults[f.Ctor] = append(r.faults[f.Ctor], f)
 	}
 	for _, c := range cfs {
+		if c.Panic {
+			c.Panic = false
+			r.closeP[c] = true
+			continue
+		}
 		r.closeF[c] = true
 	}
 }
@@ -431,6 +440,9 @@ func OnClose(i *Inst) error {
 	r.add(Event{Kind: CloseEv, G: g, Op: oi.Op, Scope: oi.Scope, Ctor: i.Ctor, Nth: i.Nth, Insts: []int64{i.ID}, Note: strconv.Itoa(int(n))})
 	if h := r.hook.Load(); h != nil {
 		(*h)(HookPoint{Where: "close", Ctor: i.Ctor, Nth: i.Nth, G: g, Op: oi.Op, Inst: i.ID})
+	}
+	if r.closeP[CloseFault{Ctor: i.Ctor, Nth: i.Nth, Out: i.Out}] && n == 1 {
+		panic(fmt.Sprintf("injected panic in Close of inst %d", i.ID))
 	}
 	if r.closeF[CloseFault{Ctor: i.Ctor, Nth: i.Nth, Out: i.Out}] {
 		return closeErrFor(i.ID)
